@@ -52,6 +52,24 @@ Example agree_example :
   end.
 Proof. vm_compute. repeat split; reflexivity. Qed.
 
+(* the separator disagreement for every separator other than "\n" (text level, code points):
+   "a py:function 1 a.html -" c "b py:function 1 b.html -\n": Sphinx has the entry b, MyST not *)
+Definition sep_text (c : N) : str :=
+  [97; 32; 112; 121; 58; 102; 117; 110; 99; 116; 105; 111; 110; 32; 49; 32; 97; 46; 104; 116; 109; 108; 32; 45] ++ [c] ++ [98; 32; 112; 121; 58; 102; 117; 110; 99; 116; 105; 111; 110; 32; 49; 32; 98; 46; 104; 116; 109; 108; 32; 45] ++ [10].
+
+Theorem separator_family : forall c, In c linesep_table -> c <> 10 ->
+  objs_lookup (fold_left (v2_step match_line_exec) (trim_last (split_nl (sep_text c))) [])
+              [112; 121] [102; 117; 110; 99; 116; 105; 111; 110] [98] = None /\
+  sinv_lookup (fold_left (sphinx_v2_step match_line_exec uri_x [] []) (splitlines (sep_text c)) [])
+              k_py_function [98] <> None.
+Proof.
+  intros c H NE. unfold linesep_table in H. cbn [In] in H.
+  repeat (destruct H as [H|H];
+          [subst c; first [ exfalso; apply NE; reflexivity
+                          | split; [vm_compute; reflexivity | vm_compute; discriminate] ] |]).
+  contradiction.
+Qed.
+
 (* the oracle hypotheses of the theorems are satisfiable *)
 Theorem oracles_satisfiable :
   zlib_stream_ok tstate tstep terr /\
